@@ -351,6 +351,13 @@ func (b *BlockList) setLocked(key string) bool {
 	if strings.ContainsRune(key, '#') || strings.IndexFunc(key, unicode.IsSpace) >= 0 {
 		return false
 	}
+	// Nor can it carry what is not a domain name at all: no query can ever
+	// match a label longer than 63 or a name longer than 255 octets, and one
+	// over-long line makes the loader give up on the whole file (and every
+	// file after it) at the next start.
+	if _, ok := dns.IsDomainName(key); !ok {
+		return false
+	}
 
 	// Refuse to add a block the whitelist would shadow. Exists matches the
 	// whitelist across the hierarchy, so this must too — otherwise adding
